@@ -48,6 +48,8 @@ TableVerdict(e) ==
   ELSE IF \E r \in 1..ny, c \in 1..nx : e.tshape[r][c] # <<R[r][c][2] - R[r][c][1], R[r][c][4] - R[r][c][3]>> THEN "tile_shape_ne_region_shape"
   ELSE IF \E r \in 1..ny, c \in 1..nx : e.chunks[1][r] # R[r][c][2] - R[r][c][1] \/ e.chunks[2][c] # R[r][c][4] - R[r][c][3] THEN "chunks_ne_region_shapes"
   ELSE IF e.neg # R THEN "negative_index_differs"
+  \* e.oob = indices / pixels outside the tiling that were ANSWERED instead of refused (IndexError): <<kind, y, x>>
+  ELSE IF e.oob # <<>> THEN "index_or_pixel_outside_the_tiling_was_not_refused"
   ELSE IF \E y \in 1..NY, x \in 1..NX : LET t == e.locate[y][x] IN ~(t[1] \in 0..(ny - 1) /\ t[2] \in 0..(nx - 1) /\ <<y - 1, x - 1>> \in Pix(R[t[1] + 1][t[2] + 1])) THEN "locate_not_inverse_of_region"
   ELSE IF \E k \in DOMAIN e.rois : LET q == e.rois[k].q o == e.rois[k].out IN
           Pix(o) # UNION {Pix(R[r][c]) : r \in (q[1] + 1)..q[2], c \in (q[3] + 1)..q[4]} THEN "roi_lookup_is_not_the_union_of_its_tiles"
